@@ -254,6 +254,15 @@ def build(family, p):
             check(len(res2) == 1, 'introspected proxy must be delivered after the Introspect reply')
             px2 = res2[0]
             px2.notifyOnDisconnect(lambda o, r: ran.append(('px2', r)))
+            # further proxies for objects that already have one: every live proxy must be told
+            res3 = []
+            c.getRemoteObject('org.b', '/p2', iface).addCallback(res3.append)
+            px3 = res3[0]
+            px3.notifyOnDisconnect(lambda o, r: ran.append(('px3', r)))
+            res4 = []
+            c.getRemoteObject('org.b', '/p1', iface).addCallback(res4.append)
+            px4 = res4[0]
+            px4.notifyOnDisconnect(lambda o, r: ran.append(('px4', r)))
             message.DBusMessage._nextSerial = 200
             sinks = []
             for i in range(j):
@@ -273,7 +282,7 @@ def build(family, p):
                           'every outstanding call must fail once with the loss reason')
             check([dc for dc in clock.getDelayedCalls() if dc.active()] == [], 'a timer survived the loss of the connection')
             check(c._pendingCalls == {}, 'bookkeeping survived the loss of the connection')
-            want = (['conn'] if with_cb else []) + ['px1', 'px2']
+            want = (['conn'] if with_cb else []) + ['px1', 'px2', 'px3', 'px4']
             check(sorted(x[0] for x in ran) == sorted(want), 'every disconnect callback (connection and live proxies) must run exactly once')
             check(all(x[1] is reason for x in ran), 'disconnect callbacks must receive the loss reason')
             # nothing fires afterwards
